@@ -655,3 +655,16 @@ package gorm
 //@ event callparam *
 //@   in gorm.(*processor).Execute
 //@   do textCleared = 0
+
+//@ # ---------- C12 (one sentence only): association mode removes links, not records, unless Unscoped ----------
+//@ # Replace / Delete / Clear (= Replace with nothing) issue a DELETE only when the association was made with
+//@ # Unscoped(), or for a many-to-many relation, where the statement is built for the join table (the links).
+//@ # Everything else in C12 (which links a history of operations leaves, Count/Find agreement) is not decided.
+//@ site association-deletes-only-links
+//@   match call gorm.(*DB).Delete
+//@   in gorm.(*Association).Delete gorm.(*Association).Replace
+//@   min-sites 6
+//@   assert unscoped-or-join-rows: association.Unscope || rel.Type == schema.Many2Many [C12]
+//@ immutable Association.Unscope
+//@   writers gorm.(*Association).Unscoped gorm.(*DB).Association
+//@   tags C12
